@@ -298,7 +298,8 @@ def gen_specs(chk: common.Check, nseq: int, nconc: int, with_modules: bool = Tru
         nt, na = rng.randint(0, 3), rng.randint(0, 3)
         if nt + na == 0:
             nt = 1
-        src, owners = progs.concurrent(random.Random(rng.randrange(1 << 30)), nt, na, nested=rng.random() < 0.3, pool=(i % 3 == 2))
+        src, owners = progs.concurrent(random.Random(rng.randrange(1 << 30)), nt, na, nested=rng.random() < 0.3, pool=(i % 3 == 2),
+                                       join=not (i % 5 == 4 and nt > 0))
         pol = [{'kind': 'all', 'command': 'next'}, {'kind': 'all', 'command': 'step'}, {'kind': 'all', 'command': 'continue'},
                {'kind': 'random', 'seed': i, 'choices': ['next', 'step', 'return']}][i % 4]
         for tt in ([True, False] if i % 4 == 0 else [True]):
